@@ -18,7 +18,7 @@ func init() {
 		ID: "C07",
 		Rule: "per-operation gradient monitor (as C02) restricted to expansion: explicit Broadcast for every (source, target) pair (0-2 new leading dims x each size-1 dim kept or expanded; factor 1 included) and Add/Sub/Mul/Div/Dot/MatMul over every broadcast-compatible shape pair (either operand or both expanded), every non-empty subset of tracked operands, random non-uniform upstream weighting; the gradient delivered to each original operand must have the operand's own shape and equal the SUM of the rule-transformed upstream gradient over all positions the element was copied to. " +
 			"A failing operand is attributed to the recorded finding 'broadcast-backward-mean' only if its shape is right and its value equals the reference tape run with BroadcastRule=Avg (mean over the copies) while differing from the sum; everything else is a VIOLATION. " +
-			"Non-trivial: some tracked operand has expansion factor > 1; distinct = (op, operand shapes, tracked subset).",
+			"Non-trivial: some tracked operand has expansion factor > 1; distinct = (op, operand shapes, tracked subset). Later additions: sampled pairs with sizes up to 7; two or three graphs built before any back-propagation that share one expanded leaf; an explicit Broadcast result consumed by 2-3 operations of one graph; upstream weightings that cancel to exactly 0.",
 		Assumptions: []string{"operand values unique per position, divisors away from 0; upstream weighting non-uniform so that mean-over-copies, sum-over-copies and reductions over a wrong dimension all differ"},
 		FloorQuick:  6000, FloorThor: 50000,
 		Run: runC07,
